@@ -58,16 +58,25 @@ def build(targets=None):
     return p.returncode == 0, p.stdout.decode()
 
 
+def prop_modules(pid):
+    """CM/Props/<pid>.lean and its continuation files CM/Props/<pid><Suffix>.lean (e.g. C01Tuple.lean: theorems of the property that
+    need modules which themselves import CM.Props.<pid>)"""
+    d = os.path.join(paths.LEAN, 'CM', 'Props')
+    return sorted(f[:-5] for f in os.listdir(d) if re.fullmatch(re.escape(pid) + r'([A-Z][A-Za-z0-9]*)?\.lean', f))
+
+
 def theorems_of(pid):
-    """Names of the property theorems (and the number of non-vacuity examples) in CM/Props/<pid>.lean."""
+    """Names of the property theorems (and the number of non-vacuity examples) in CM/Props/<pid>*.lean."""
     path = os.path.join(paths.LEAN, 'CM', 'Props', f'{pid}.lean')
     if not os.path.exists(path):
         return [], 0, path
-    src = _strip_comments(open(path).read())
-    ns = re.findall(r'^namespace\s+(\S+)', src, flags=re.M)
-    prefix = '.'.join(ns) + '.' if ns else ''
-    names = [prefix + n for n in re.findall(r'^\s*(?:protected\s+)?theorem\s+(\S+)', src, flags=re.M)]
-    examples = len(re.findall(r'^\s*example\b', src, flags=re.M))
+    names, examples = [], 0
+    for mod in prop_modules(pid):
+        src = _strip_comments(open(os.path.join(paths.LEAN, 'CM', 'Props', mod + '.lean')).read())
+        ns = re.findall(r'^namespace\s+(\S+)', src, flags=re.M)
+        prefix = '.'.join(ns[:1]) + '.' if ns else ''
+        names += [prefix + n for n in re.findall(r'^\s*(?:protected\s+)?theorem\s+(\S+)', src, flags=re.M)]
+        examples += len(re.findall(r'^\s*example\b', src, flags=re.M))
     return names, examples, path
 
 
@@ -99,7 +108,8 @@ def audit(pid):
         os.makedirs(adir, exist_ok=True)
         afile = os.path.join(adir, f'{pid}.lean')
         with open(afile, 'w') as f:
-            f.write(f'import CM.Props.{pid}\n')
+            for mod in prop_modules(pid):
+                f.write(f'import CM.Props.{mod}\n')
             for n in names:
                 f.write(f'#print axioms {n}\n')
         p = subprocess.run(['lake', 'env', 'lean', afile], cwd=paths.LEAN, stdout=subprocess.PIPE,
@@ -138,7 +148,7 @@ def recheck(pid):
         if os.path.exists(cache):
             return tuple(json.load(open(cache)))
         t0 = time.time()
-        p = subprocess.run(['lake', 'env', 'leanchecker', f'CM.Props.{pid}'], cwd=paths.LEAN, stdout=subprocess.PIPE,
+        p = subprocess.run(['lake', 'env', 'leanchecker'] + [f'CM.Props.{m}' for m in prop_modules(pid)], cwd=paths.LEAN, stdout=subprocess.PIPE,
                            stderr=subprocess.STDOUT, timeout=3000)
         out = (p.returncode == 0, f'leanchecker CM.Props.{pid}: exit {p.returncode} in {round(time.time() - t0, 1)} s ' + p.stdout.decode()[-500:])
         if out[0]:
